@@ -103,8 +103,8 @@ def coq_project_files():
     return files
 
 
-def coq_build(targets=None):
-    """Full .vo build of the development (incremental through make). Returns (ok, log)."""
+def _ensure_project():
+    """_CoqProject (for editors / coq_makefile users) lists every file; regenerated on demand."""
     with open(os.path.join(COQ, '_CoqProject.base')) as f:
         base = f.read()
     proj = base + '\n'.join(coq_project_files()) + '\n'
@@ -113,13 +113,57 @@ def coq_build(targets=None):
     if old != proj:
         with open(pj, 'w') as f:
             f.write(proj)
-    if old != proj or not os.path.exists(os.path.join(COQ, 'Makefile')):
-        rc, out = sh('coq_makefile -f _CoqProject -o Makefile', 120, cwd=COQ)
-        if rc != 0:
-            return False, out
-    tgt = ' '.join(targets) if targets else ''
-    rc, out = sh('make -j16 %s' % tgt, MAKE_TIMEOUT, cwd=COQ)
-    return rc == 0, out
+
+
+def coq_build(dirs=None):
+    """Full .vo build (coqc, never -vos/-vok) of the given sub-directories of /verif/coq in
+    dependency order; a file is recompiled when it or anything it depends on is newer than
+    its .vo.  dirs=None builds everything through coq_makefile + make.  Returns (ok, log)."""
+    _ensure_project()
+    if dirs is None:
+        rc, out = sh('coq_makefile -f _CoqProject -o Makefile && make -j16', MAKE_TIMEOUT, cwd=COQ)
+        return rc == 0, out
+    files = []
+    for d in dirs:
+        files += sorted(glob.glob(os.path.join(COQ, d, '*.v')))
+    files = [os.path.relpath(f, COQ) for f in files]
+    if not files:
+        return False, 'no Coq files in %s' % dirs
+    rc, out = sh('coqdep -Q . TM -sort %s' % ' '.join(files), 120, cwd=COQ)
+    if rc != 0:
+        return False, out
+    order = [f for f in out.split() if f.endswith('.v')]
+    order = [os.path.normpath(f) for f in order]
+    rc, depout = sh('coqdep -Q . TM %s' % ' '.join(files), 120, cwd=COQ)
+    deps = {}
+    for line in depout.splitlines():
+        if ':' not in line:
+            continue
+        lhs, rhs = line.split(':', 1)
+        tgt = [t for t in lhs.split() if t.endswith('.vo')]
+        if tgt:
+            deps[os.path.normpath(tgt[0])] = [os.path.normpath(x) for x in rhs.split() if x.endswith('.vo')]
+    log = []
+    rebuilt = set()
+    for f in order:
+        if f not in files:
+            continue
+        vo = f[:-2] + '.vo'
+        src_m = os.path.getmtime(os.path.join(COQ, f))
+        stale = not os.path.exists(os.path.join(COQ, vo)) or os.path.getmtime(os.path.join(COQ, vo)) < src_m
+        for d in deps.get(vo, []):
+            dp = os.path.join(COQ, d)
+            if d in rebuilt or (os.path.exists(dp) and os.path.exists(os.path.join(COQ, vo))
+                                and os.path.getmtime(dp) > os.path.getmtime(os.path.join(COQ, vo))):
+                stale = True
+        if stale:
+            rc, out = sh('coqc -Q . TM -w -notation-overridden,-deprecated-hint-without-locality,-deprecated-syntactic-definition %s' % f,
+                         COQC_TIMEOUT, cwd=COQ)
+            log.append('coqc %s -> %d\n%s' % (f, rc, out[-3000:]))
+            if rc != 0:
+                return False, '\n'.join(log)
+            rebuilt.add(vo)
+    return True, '\n'.join(log)
 
 
 def count_obligations(dirs):
@@ -244,9 +288,11 @@ def setup_numba_cache():
     os.environ['NUMBA_CACHE_DIR'] = d
     # drop caches of other source versions (disk)
     base = os.path.dirname(d)
-    for o in os.listdir(base):
-        if os.path.join(base, o) != d:
-            shutil.rmtree(os.path.join(base, o), ignore_errors=True)
+    others = sorted((o for o in os.listdir(base) if os.path.join(base, o) != d),
+                    key=lambda o: os.path.getmtime(os.path.join(base, o)))
+    for o in others[:-6]:
+        shutil.rmtree(os.path.join(base, o), ignore_errors=True)
+    os.utime(d)
     return d
 
 
